@@ -447,6 +447,11 @@ func (f Field) Init(def, rep int) string {
 	}
 
 	right = fmt.Sprintf(right, "")
+	if maxRep > 0 {
+		// a column below a repeated field holds one value per element: the
+		// next one is vals[nVals], whatever lies between the list and the leaf
+		right = strings.Replace(right, "vals[0]", "vals[nVals]", -1)
+	}
 	return fmt.Sprintf("x%s = %s", left, right)
 }
 
